@@ -224,9 +224,17 @@ def walk(w, rnd, profile, steps, opts):
         elif name == "inbound":
             k = rnd.random()
             mid = rnd.choice(inbound_ids)
-            if k < 0.65:
+            if k < 0.15:
+                # several packets in one chunk, one of them with a two-byte remaining length
+                pk = []
+                for _ in range(rnd.randint(2, 4)):
+                    q = rnd.randint(0, 2); m2 = rnd.choice(inbound_ids)
+                    pk.append(W.publish(rnd.choice(TOPICS), rnd.choice([b"", b"in", b"L" * 200, b"\x00\xfe" * 5]), q, m2, rnd.randint(0, 1) if q else 0, rnd.randint(0, 1))
+                              if rnd.random() < 0.75 else W.ack("PUBREL", m2))
+                do(w.recv(a, b"".join(pk)))
+            elif k < 0.65:
                 q = rnd.randint(0, 2)
-                do(w.recv(a, W.publish(rnd.choice(TOPICS), rnd.choice([b"", b"in", b"\x00\xfe" * 5]), q, mid, rnd.randint(0, 1) if q else 0, rnd.randint(0, 1))))
+                do(w.recv(a, W.publish(rnd.choice(TOPICS), rnd.choice([b"", b"in", b"L" * 200, b"\x00\xfe" * 5]), q, mid, rnd.randint(0, 1) if q else 0, rnd.randint(0, 1))))
             else:
                 do(w.recv(a, W.ack("PUBREL", mid)))
         elif name == "pingresp":
